@@ -14,6 +14,11 @@ acknowledgement):
      `Args.deliver` / `Args.deliverMP` / `callResult` on its own frames equals the observed
      invocations and results.
 
+Client manager (`manager` of the configuration: default | pubsub | pubsub2, see world_e2e): the same bursts on a
+server behind a message queue — one host, or the application on host hA and the client on host hB.  The manager
+is not part of the model: the expected frames, deliveries and results are the same (only the acknowledgement id
+that travels is every second one on a single pub/sub host, which numbers the application's callback as well).
+
 Concurrent bursts (asyncio pairings, `deliver: 'tasks'`): the burst of emit/send is delivered the way
 the real engine.io cores deliver it (`E2EWorld.pump_concurrent`: one task per message towards the
 client, socket.io's own handler tasks on the server with `async_handlers=True`, scripted loop turns
@@ -135,8 +140,8 @@ def gen_namespaces(rng):
     return nss
 
 
-def gen_burst(rng, cfg, nss, n=None):
-    side = rng.choice(['client', 'server'])
+def gen_burst(rng, cfg, nss, n=None, p_server=0.5):
+    side = 'server' if rng.random() < p_server else 'client'
     n = n or rng.randint(1, 8)
     msgs = []
     for _ in range(n):
@@ -264,7 +269,8 @@ class Session:
         self.cfg = cfg
         self.nss = nss
         self.w = W().E2EWorld(cfg['mode'], cfg['serializer'], cfg['framing'], nss, rng,
-                              async_handlers=cfg['async_handlers'], settle=cfg.get('settle', 'frame'))
+                              async_handlers=cfg['async_handlers'], settle=cfg.get('settle', 'frame'),
+                              manager=cfg.get('manager', 'default'))
         self.ids = {'client': {}, 'server': {}}
         self.ntok = 0
 
@@ -279,7 +285,7 @@ class Session:
         if side == 'client':
             fn, kw, eio = w.client.call, dict(namespace=m['ns']), w.ceio
         else:
-            fn, kw, eio = w.sw.sio.call, dict(to=w.sids[m['ns']], namespace=m['ns']), w.sw.eio
+            fn, kw, eio = w.api_sw.sio.call, dict(to=w.sids[m['ns']], namespace=m['ns']), w.api_sw.eio
         state = {'waiting': False, 'ran': False}
 
         def run_meanwhile():
@@ -373,7 +379,7 @@ class Session:
             tok = None
             if m['cb']:
                 c = self.ids[side]
-                mid = c[m['ns']] = c.get(m['ns'], 0) + 1
+                mid = c[m['ns']] = c.get(m['ns'], 0) + (w.ack_id_step if side == 'server' else 1)
             entry = {'id': mid, 'tok': tok, 'res': None}
             sent.append(entry)
             nxt = i + 1
@@ -657,8 +663,18 @@ def correspond(cfg, burst, obs, mv):
 
 # ------------------------------------------------------------------ driver
 
+MANAGERS = ['default', 'pubsub', 'pubsub2']
+MANAGER_TEXT = {
+    'default': 'Manager/AsyncManager (in memory, the default)',
+    'pubsub': 'real PubSubManager/AsyncPubSubManager subclass over an in-memory channel, one host; the listener '
+              'is served (the real _thread()) whenever the link is pumped',
+    'pubsub2': 'the same, two hosts: emit/send/call issued on host hA, the client connected to host hB (payload '
+               'and acknowledgement arguments cross the channel pickled)'}
+
+
 def cfg_name(cfg):
-    return '%s.%s.%s' % (cfg['mode'], cfg['serializer'], cfg['framing'])
+    mgr = cfg.get('manager', 'default')
+    return '%s.%s.%s%s' % (cfg['mode'], cfg['serializer'], cfg['framing'], '' if mgr == 'default' else '+' + mgr)
 
 
 def count_concurrent(ctx, cfg, burst, obs, stats):
@@ -697,6 +713,13 @@ def run_case(ctx, drv, cfg, nss, bursts, stats):
             if cfg['async_handlers']:
                 ctx.count('settle.%s' % cfg.get('settle', 'frame'), len(burst['msgs']))
             ctx.count('dir.%s' % burst['side'], len(burst['msgs']))
+            mgr = cfg.get('manager', 'default')
+            ctx.count('manager.%s.%s_to_peer' % (mgr, burst['side']), len(burst['msgs']))
+            if burst['side'] == 'server':
+                for m in burst['msgs']:
+                    ctx.count('manager.%s.server_to_client.%s.data_%s' % (mgr, m['kind'], shape(m['data'])))
+                    if m['cb']:
+                        ctx.count('manager.%s.server_to_client.acknowledged.ret_%s' % (mgr, shape(m['ret'])))
             ctx.count('burst_len.%d' % len(burst['msgs']))
             if burst.get('deliver') == 'tasks':
                 count_concurrent(ctx, cfg, burst, obs, stats)
@@ -744,6 +767,7 @@ def run_case(ctx, drv, cfg, nss, bursts, stats):
     finally:
         b64 = ses.w.b64_packets if hasattr(ses.w, 'b64_packets') else 0
         stats['b64_binary_packets'] += b64
+        stats['listener_messages'] += ses.w.listener_messages
         ses.close()
 
 
@@ -808,7 +832,7 @@ def run(ctx):
     rng = ctx.rng
     stats = {'bursts': 0, 'msgs': 0, 'validated': 0, 'frames': 0, 'nontrivial': set(), 'samples': [],
              'b64_binary_packets': 0, 'concurrent_bursts': 0, 'concurrent_msgs': 0, 'concurrent_tasks': 0,
-             'executor_jobs': 0, 'concurrent_mixed': 0}
+             'executor_jobs': 0, 'concurrent_mixed': 0, 'listener_messages': 0}
     drv = C.Driver('codec')
     try:
         boundary_note(ctx)
@@ -821,6 +845,7 @@ def run(ctx):
             ctx.count('corpus')
         sessions = ctx.scale(30, 400)
         nbursts = ctx.scale(5, 8)
+        mq_sessions = ctx.scale(6, 80)
         for mode, ser, framing in CONFIGS:
             for ah in (False, True):
                 cfg = {'mode': mode, 'serializer': ser, 'framing': framing, 'async_handlers': ah,
@@ -839,6 +864,21 @@ def run(ctx):
                     nss = gen_namespaces(rng)
                     bursts = [gen_burst(rng, cfg, nss) for _ in range(nbursts)]
                     run_case(ctx, drv, cfg, nss, bursts, stats)
+                # the same server behind a message queue: the client manager in use must not change what the
+                # application's payload looks like on arrival (same bursts, same expected frames)
+                for mgr in MANAGERS[1:]:
+                    cfg = dict(cfg, manager=mgr, settle='batch' if ah else 'frame')
+                    nss = ['/', rng.choice(NS_POOL)]
+                    run_case(ctx, drv, cfg, nss, corner_bursts(cfg, nss), stats)
+                    if mode == 'asyncio' and mgr == 'pubsub':
+                        mb = mixed_handler_bursts(cfg, nss)
+                        run_case(ctx, drv, cfg, nss, mb[len(mb) // 2:][:12], stats)     # server -> client half
+                    for k in range(mq_sessions if mgr == 'pubsub' else max(2, mq_sessions // 2)):
+                        if ah:
+                            cfg = dict(cfg, settle='batch' if k % 2 == 0 else 'frame')
+                        nss = gen_namespaces(rng)
+                        bursts = [gen_burst(rng, cfg, nss, p_server=0.8) for _ in range(nbursts)]
+                        run_case(ctx, drv, cfg, nss, bursts, stats)
     finally:
         drv.close()
     ctx.coverage.update({
@@ -859,7 +899,28 @@ def run(ctx):
         'concurrent_library_tasks_run_to_completion': stats['concurrent_tasks'],
         'executor_jobs_submitted_by_the_library': stats['executor_jobs'],
         'configurations_exercised': sorted(k[4:] for k in ctx.counters if k.startswith('cfg.')),
+        'client_managers': {
+            mgr: {'what': MANAGER_TEXT[mgr],
+                  'server_to_client_messages': ctx.counters.get('manager.%s.server_to_peer' % mgr, 0),
+                  'client_to_server_messages': ctx.counters.get('manager.%s.client_to_peer' % mgr, 0),
+                  'server_to_client_tuple_payloads': sum(
+                      v for k, v in ctx.counters.items()
+                      if k.startswith('manager.%s.server_to_client.' % mgr) and '.data_tuple' in k),
+                  'server_to_client_acknowledged': sum(
+                      v for k, v in ctx.counters.items()
+                      if k.startswith('manager.%s.server_to_client.acknowledged.' % mgr))}
+            for mgr in MANAGERS},
+        'pubsub_channel_messages_consumed_by_the_real_listeners': stats['listener_messages'],
     })
+    for mgr in MANAGERS:
+        for fam in ('threading', 'asyncio'):
+            if not any(k.startswith('cfg.%s.' % fam) and (k.endswith('+' + mgr) or (mgr == 'default' and '+' not in k))
+                       for k in ctx.counters):
+                ctx.violation('proof', 'client manager %r not exercised on the %s family' % (mgr, fam),
+                              {'missing': [mgr, fam]}, no_input=True)
+        if not ctx.counters.get('manager.%s.server_to_peer' % mgr):
+            ctx.violation('proof', 'no server->client message ran with client manager %r' % mgr,
+                          {'missing': mgr}, no_input=True)
     missing = [cfg_name({'mode': m, 'serializer': s, 'framing': f}) for m, s, f in CONFIGS
                if ('cfg.' + cfg_name({'mode': m, 'serializer': s, 'framing': f})) not in ctx.counters]
     if missing:
@@ -878,6 +939,10 @@ def run(ctx):
         'loop has been idle for 24 turns (a slow pool thread); work handed to a private thread or pool, or delayed '
         'by wall-clock time, is reported as unfinished rather than waited for',
         'acknowledgement ids count from 1 per namespace (client) / per sid (server): used to predict the frames',
+        'pub/sub client managers: the backend is the in-memory channel of harness/world_pubsub.py (pickled messages, '
+        'delivered in publication order, each host served by the real _thread() when the link is pumped); a single '
+        'pub/sub host consumes two acknowledgement ids per emit with callback (its own and the relaying one, which '
+        'travels): used to predict the frames; real backends (redis, kafka, ...) are not exercised',
     ]
     C.fold_proof_failures(ctx)
 
